@@ -39,10 +39,70 @@ def isWs (b : UInt8) : Bool := b == 0x20 || b == 0x0a || b == 0x0d || b == 0x09
 
 def lastD (l : List String) (d : String) : String := l.getLast?.getD d
 
+
+/-! ### op "site": the runners' call sites of `ReadDelimitedMessage` -/
+
+def stream (inp : Json) (hexKey fillKey : String) : Bytes :=
+  unhex (str (field inp hexKey)) ++ List.replicate (nat (field inp fillKey)) 0
+
+def capsOf (chunk len : Nat) : List Nat := if chunk == 0 then [] else List.replicate (len / chunk + 2) chunk
+
+/-- does the class of the error that ended the reading say what the result says? -/
+def termMatches (limit : Nat) (r : Json) : Res → Bool
+  | .eof => str (field r "err") == "eof"
+  | .unexpectedEOF => str (field r "err") == "unexpectedEOF"
+  | .tooLarge n => str (field r "err") == "tooLarge" && int (field r "size") == Int.ofNat n && int (field r "limit") == Int.ofNat limit
+  | _ => false
+
+/-- One site: `r` is what the real code did there (messages accepted, class of the final error,
+bytes consumed, largest buffer), `results`/`used` what a reader of the byte string `d` must have
+done: `msgs` messages, then either a framed message that was rejected for its content (the reading
+stops there) or the end reported by the reader. -/
+def siteOK (limit : Nat) (isServer : Bool) (r : Json) (results : List Res) (used maxAlloc : Nat) (exactBuf : Bool) : Bool :=
+  let msgs := nat (field r "msgs")
+  let err := str (field r "err")
+  let content := err == "unmarshal" || err == "name"
+  let front := (results.take msgs).all Res.isMsg && results.length ≥ msgs
+  let last :=
+    if err == "" then isServer && msgs == 1 && results.length == 1
+    else if content then results.length == msgs + 1 && (results.drop msgs).all Res.isMsg
+    else results.length == msgs + 1 && (match results.drop msgs with | [t] => termMatches limit r t | _ => false)
+  front && last && nat (field r "consumed") == used &&
+    (if exactBuf then nat (field r "maxBuf") == maxAlloc else nat (field r "maxBuf") ≤ Nat.max 4 limit)
+
+def siteHandle (inp impl : Json) : Verdict :=
+  if bool (field impl "crashed") then
+    { agree := false, holds := false, cls := "crashed",
+      why := s!"the runner died while reading a peer's stdout ({str (field impl "how")}: {str (field impl "detail")})" } else
+  if bool (field impl "hang") then { agree := false, holds := false, why := "the runner did not return within 15 s" } else
+  let chunk := nat (field inp "chunk")
+  let judge (site : Site) (r : Json) (d : Bytes) : Bool × Bool × String :=
+    let isServer := site == .server
+    let count := if isServer then 1 else nat (field r "msgs") + 1
+    let out := readAllWith (readAt site) count ⟨d, capsOf chunk d.length, .eofSeparate⟩
+    let agree := siteOK site.limit isServer r out.results (d.length - out.rest.data.length) (out.allocs.foldl Nat.max 0) true
+    let spec := expected site.limit count d .eofSeparate
+    let holds := siteOK site.limit isServer r spec (consumed site.limit count d) 0 false
+    (agree, holds, if holds then "" else
+      s!"site {repr site} (limit {site.limit}): a reader of this stream must report {spec.map (showRes site.limit)} having consumed {consumed site.limit count d} bytes and asked for no buffer above the limit; the runner accepted {nat (field r "msgs")} message(s), ended with '{str (field r "err")}' size {int (field r "size")} limit {int (field r "limit")}, consumed {nat (field r "consumed")}, largest buffer {nat (field r "maxBuf")}")
+  let srv := field impl "srv"
+  let cli := field impl "cli"
+  if !(bool (field srv "used")) then { agree := false, holds := false, why := "the server's response was never read" } else
+  let (a1, h1, w1) := judge .server srv (stream inp "serverOut" "serverFill")
+  let cliUsed := bool (field cli "used")
+  let (a2, h2, w2) := if cliUsed then judge .client cli (stream inp "clientOut" "clientFill") else (true, true, "")
+  -- the client's stream is read exactly when the server's response was accepted and a real client runner is used
+  let reach := cliUsed == (str (field inp "client") == "real" && str (field srv "err") == "" && nat (field impl "sent") > 0)
+  let holds := h1 && h2
+  { agree := a1 && a2 && reach, holds := holds, nontrivial := true,
+    cls := "site:" ++ (if cliUsed then "client:" ++ str (field cli "err") else "server:" ++ str (field srv "err")),
+    why := if !h1 then w1 else if !h2 then w2 else if !(a1 && a2 && reach) then "implementation differs from the model" else "" }
+
 def handle : Handler := fun op inp impl =>
   if !(isNull (field impl "panic")) then
     { agree := false, holds := false, why := "panic: " ++ str (field impl "panic") } else
   match op with
+  | "site" => siteHandle inp impl
   | "read" =>
     let data := unhex (str (field inp "bytes"))
     let caps := natList (field inp "caps")
